@@ -15,6 +15,9 @@ def penalties(rng):
     return pick(), pick(), pick()
 
 
+QUICK = [False]
+
+
 def gen_case(rng, cls):
     """returns dict(kind, recs[(name, seq)] incl. possibly empty seqs)"""
     if cls == "bulk":
@@ -39,6 +42,8 @@ def gen_case(rng, cls):
         kind = rng.choice(["dna", "protein"])
         alpha = gen.DNA if kind == "dna" else gen.AA
         n = rng.choice([511, 512, 513, 1025, 1500, 3000])
+        if QUICK[0] and n == 3000:
+            n = 1500   # 3000 short divergent sequences can come back 50000 columns wide (minutes of writing): thorough tier only
         seqs = gen.family(rng, n, rng.randint(8, 30), alpha, psub=0.2, pindel=0.05)
         if kind == "protein":
             kind, seqs = _ensure_protein(rng, seqs)
@@ -216,7 +221,11 @@ def check_case(ck, paths_small, paths_big, case, idx):
         ck.count("cases_with_a_failed_write_before_the_real_ones")
     r, lrecs = common.kvdrv(paths, script, scratch=ck.scratch, timeout=900, cpu=600)
     ctx = dict(ctxbase, input=recs if len(recs) < 400 else "(large)", nthreads=nt, script=script)
-    if not ck.proc_violations(r, ctx, allow_rcs=(0,)):
+    if big and (r.cpu_limited or r.timed_out):
+        # thousands of short divergent sequences can come back tens of thousands of columns wide: dumping the object and writing it three times,
+        # character by character, then takes longer than the limit. A time limit says nothing about a large case (same rule as in C05)
+        ck.count("large_cases_library_part_not_judged_time_limit")
+    elif not ck.proc_violations(r, ctx, allow_rcs=(0,)):
         ops = {x["op"]: x for x in lrecs if x.get("op") in ("read", "run")}
         d = next((x for x in lrecs if x.get("op") == "dump"), None)
         if ops.get("read", {}).get("rc") != 0 or ops.get("run", {}).get("rc") != 0 or d is None or d.get("null"):
@@ -294,6 +303,7 @@ def _classify(e):
 def run(ck, tier):
     paths = build("asan")
     sc = getattr(ck, "scale", 1.0)
+    QUICK[0] = tier == "quick"
     if tier == "quick":
         plan = [("huge", 2), ("odd_letters", 10), ("late_gaps", 6), ("near_end", 12), ("outlier", 3), ("many_long", 3), ("bulk", 100), ("boundary_len", 17), ("boundary_n", 6), ("empties", 8), ("ratio", 2), ("many", 1), ("long", 1), ("huge_header", 3)]
         big = build("rel")
